@@ -18,6 +18,9 @@ BUILT = {
  "C06": ("exploration", "runtime monitor: differential against Python's csv module on generated arbitrary-text files; LineEvent hook captures #name/#index reads on every line",
          "Random files (unicode, embedded delimiters/quotes/LF, ragged, blanks) in 4 delimiters x 2 quote chars are run through the real reader; returned lines, headers and per-line header reads are compared with csv.reader on the same bytes. Held = no divergence on the generated files.",
          "csv.reader is the reference parser; header cleaning rule transcribed from LineCounter.clean_headers", "DESIGN.md#c06"),
+ "C07": ("exploration", "runtime monitor: relational trace comparison - one generated job run through collect(), next(), fast_forward() and collect(nexts=n) for every n, observed by LineEvent and side-effect hooks",
+         "The three entry points' per-line traces, final variables/counters/validity/stop state/errors/printouts and returned lines must be identical; collect(nexts=n) must return a prefix and its event trace must be a prefix of the full trace with no set_variable/print tagged with a later line.",
+         "no oracle beyond the runs themselves; generator excludes time/random functions", "DESIGN.md#c07"),
  "C13": ("exploration", "runtime monitor: trace-specification checking ('no component / line evaluated after stop or skip fires', 'advance(n) lines have no effects', 'last() fires once on the final line') on LineEvent + EvalEvent hooks, plus the reference evaluator",
          "Systematic product of control form x position x firing line x scan window x blank layout (about 20k real runs) plus random two-control / onmatch programs; per line the pushes that happened, the components evaluated, matches and counters are compared with the documented behaviour. Known findings F9/F9b attributed by exact emulation.",
          "reference semantics from stop.md/advance.md/last.md; A1 corner (scan window ending on a blank record) not decided", "DESIGN.md#c13"),
